@@ -613,8 +613,12 @@ func fieldTypesOnWire(p *Prog) []types.Type {
 	return out
 }
 
+// forms (pointer/value) of the message kinds each role special-cases; filled by c01MessageClause
+var msgForms = map[string]map[string]map[string]bool{}
+
 func c01Grammar(r *Run) {
 	p := r.P
+	msgForms = map[string]map[string]map[string]bool{}
 	fns := map[string]*ssa.Function{"encode": p.Fn("p9p:(*encoder).encode"), "decode": p.Fn("p9p:(*decoder).decode"), "size": p.Fn("p9p:size9p")}
 	for role, fn := range fns {
 		if fn == nil {
@@ -708,6 +712,19 @@ func c01Grammar(r *Run) {
 		}
 		r.Floor("grammar/layout", nClauses, map[string]int{"encode": 27, "decode": 17, "size": 27}[role], "typed clauses in "+role)
 	}
+	// sibling agreement on the special cases: size9p must count the extra stat size field for exactly the forms
+	// (pointer / value) of Rstat and Twstat for which encode emits it — otherwise Size() != len(Marshal()) for that form
+	for _, kind := range []string{"MessageRstat", "MessageTwstat"} {
+		for _, form := range []string{"value", "pointer"} {
+			e, s := msgForms["encode"][kind][form], msgForms["size"][kind][form]
+			key := fmt.Sprintf("size/encode agree on the %s form of %s", form, kind)
+			if e == s {
+				r.Ok("grammar/layout", key, fns["size"].Pos())
+			} else {
+				r.Bad("grammar/layout", key, fns["size"].Pos(), fmt.Sprintf("encode special-cases the %s form: %v, size9p: %v — Size() and the marshalled length differ by 2 for that form (frames can exceed msize by 2 bytes unnoticed)", form, e, s))
+			}
+		}
+	}
 }
 
 // the Message clause: inner switch on the message kind for the doubled stat size
@@ -749,8 +766,17 @@ func c01MessageClause(r *Run, role string, fn *ssa.Function, c *tsClause) {
 			st := shortType(t)
 			name := strings.TrimPrefix(strings.TrimPrefix(st, "*"), "p9p.")
 			got[name] = append(got[name], ev)
+			if msgForms[role] == nil {
+				msgForms[role] = map[string]map[string]bool{}
+			}
+			if msgForms[role][name] == nil {
+				msgForms[role][name] = map[string]bool{}
+			}
 			if !strings.HasPrefix(st, "*") {
 				valueForm[name] = true
+				msgForms[role][name]["value"] = true
+			} else {
+				msgForms[role][name]["pointer"] = true
 			}
 		}
 	}
